@@ -137,7 +137,7 @@ PROPS["C15"] = P(
                  [dict(ob=o, params=dict(tier=tier, usage="plain"), want=["C15."])
                   for o in ("step.open", "step.add", "step.claim", "step.list", "step.disconnect")] +
                  [dict(ob="kernel.summarize_mailbox", params=dict(n=n), want=["C15."])
-                  for n in ((1, 2, 3, 4) if tier == "thorough" else (1, 2, 3))] +
+                  for n in ((0, 1, 2, 3, 4) if tier == "thorough" else (0, 1, 2, 3))] +
                  [dict(ob="kernel.summarize_nameplate", params=dict(n=n), want=["C15."]) for n in (1, 2, 3, 4)])
 
 PROPS["C16"] = P(
@@ -148,7 +148,9 @@ PROPS["C16"] = P(
     "v <= t < v+B at each of the three sites that apply it",
     lambda tier: usage_ops(tier, "blur", ["C16."]) +
                  [dict(ob="kernel.blur", params=dict(site=s_), want=["C16."]) for s_ in ("nameplate", "mailbox", "bind")] +
-                 [dict(ob="kernel.summarize_mailbox", params=dict(n=2, blur="sym"), want=["C16."]),
+                 [dict(ob="sweep.step", params=dict(tier=tier, relaxed=True, usage="blur", others=["none"]), want=["C16."]),
+                  dict(ob="kernel.summarize_mailbox", params=dict(n=0, blur="sym"), want=["C16."]),
+                  dict(ob="kernel.summarize_mailbox", params=dict(n=2, blur="sym"), want=["C16."]),
                   dict(ob="kernel.summarize_nameplate", params=dict(n=2, blur="sym"), want=["C16."])])
 
 
@@ -164,6 +166,7 @@ RESTART_ALL = lambda tier: [
     (["alloc"], ["claim", "allocate", "list", "release"]),
     (["open_add_sweep"], ["open", "claim", "list", "openadd"]),
     (["alloc_sweep_claim"], ["claim", "allocate"] if tier == "thorough" else ["claim"]),
+    (["claim_list_open_close", "claim_list_release"], ["list", "allocate", "claim", "open"]),
 ]
 
 PROPS["C11"] = P(
@@ -187,7 +190,8 @@ PROPS["C18"] = P(
     "no usage store, no blur) vs. (listing disallowed, usage store, symbolic blur) [thorough: all five other "
     "combinations]: identical frames except the payload of `nameplates`, identical channel store, identical "
     "subscriptions; step(list): exactly the app's names when allowed, [] when disallowed, store unchanged",
-    lambda tier: [dict(ob="prod.config", params=dict(tier=tier), want=["C18."]),
+    lambda tier: restart_tasks(tier, [(["claim_list_open_close", "claim_list_release"], ["list", "allocate"])]) +
+                 [dict(ob="prod.config", params=dict(tier=tier), want=["C18."]),
                   dict(ob="step.list", params=dict(tier=tier), want=["C18."]),
                   dict(ob="step.list", params=dict(tier=tier, usage="blur"), want=["C18."])])
 
